@@ -42,7 +42,7 @@ man = {
     'engines': [
         {'name': 'refwire', 'path': 'vlib/refwire', 'kind_free_text': 'independent RFC reference codec and sequential models (trusted base of the oracles)', 'serves_properties': ['C01','C02','C03','C06','C07','C08','C09','C10','C11','C16']},
         {'name': 'mon', 'path': 'vlib/mon.py', 'kind_free_text': 'sharded child-process runner, three-valued verdict, evidence writer, known-findings classifier', 'serves_properties': [p['id'] for p in props]},
-        {'name': 'lab', 'path': 'vlib/lab.py', 'kind_free_text': 'virtual-clock asyncio loop driving the real Reactor/Peer/Protocol over loopback TCP against a scripted remote speaker', 'serves_properties': ['C05','C06','C10','C11','C12','C17']},
+        {'name': 'lab', 'path': 'vlib/lab.py', 'kind_free_text': 'virtual-clock asyncio loop driving the real Reactor/Peer/Protocol over loopback TCP against a scripted remote speaker', 'serves_properties': ['C04','C05','C06','C10','C11','C12','C17']},
     ],
     'checks': checks,
     'not_applicable': na,
